@@ -2,24 +2,30 @@
 (***************************************************************************)
 (* Generator and in-model checks for C14 (AST traversal).                  *)
 (*                                                                         *)
-(* SpecGen / SpecFixed: TLC enumerates documents (GenDoc.tla generator, or *)
-(* the fixed executable / type-system documents below) and, for every      *)
-(* document, visitor policies LAZILY: a policy is built as a sequence of   *)
-(* decisions in delivery order, each placed at an event that is actually   *)
-(* delivered under the decisions before it, so that only distinguishable   *)
-(* policies are explored and each exactly once.  `pol` is the open prefix  *)
-(* (skip decisions) of the current visitor, `pols` the closed policies of  *)
-(* the parallel visitors before it.  Every state whose document is         *)
-(* complete and in which only the last visitor is open emits ONE vector:   *)
-(* the document, its abstract tree (TreeOf), the full walk, and one case   *)
-(* per final decision (none / skip / break at every remaining delivered    *)
-(* event) with the event sequence Walk prescribes.  Policies with at most  *)
-(* K decisions per visitor are covered: all single decisions, all pairs, ..*)
+(* SpecAll (SpecFixed / SpecGen are its two halves): a first step picks a  *)
+(* FAMILY from the constant set Fams (what to traverse, how many decisions *)
+(* per visitor, how many parallel visitors, which visitor forms).  The     *)
+(* document is one of the fixed executable / type-system documents below   *)
+(* or is built by the GenDoc.tla generator (every document of the bound,   *)
+(* each once).  For every document TLC enumerates visitor policies LAZILY: *)
+(* a policy is built as a sequence of decisions in delivery order, each    *)
+(* placed at an event that is actually delivered under the decisions       *)
+(* before it, so that only distinguishable policies are explored and each  *)
+(* exactly once.  `pol` is the open prefix (skip decisions) of the current *)
+(* visitor, `pols` the closed policies of the parallel visitors before it. *)
+(* Every state whose document is complete and in which only the last       *)
+(* visitor is open emits ONE vector: the document, its abstract tree       *)
+(* (TreeOf) with what locates every node and the types in force, the full  *)
+(* walk, and one case per final decision (none / skip / break at every     *)
+(* remaining delivered event) with the event sequence Walk prescribes (as  *)
+(* positions in the full walk).  All policies with at most K decisions per *)
+(* visitor are covered: all single decisions, all pairs, all triples ...   *)
+(* The emitting invariant also checks the theorems about the oracle.       *)
 (*                                                                         *)
 (* SpecMachine: the iterative stack machine of Visitor.tla on all generic  *)
 (* trees of at most NGen nodes (every shape, every split of the children   *)
-(* into single and list slots) and on the fixed documents, the answers     *)
-(* chosen lazily at each delivered event; invariant MRefines.              *)
+(* into single and list slots) and on fixed documents, the answers chosen  *)
+(* lazily at each delivered event; invariant MRefines.                     *)
 (***************************************************************************)
 EXTENDS GenDoc, Visitor, SchemaS1, Json
 
@@ -28,13 +34,17 @@ CONSTANTS Fams,        \* the families of this run: a set of family records (bel
           MaxDec,      \* SpecMachine: max answers other than continue
           MDocIds      \* SpecMachine: fixed documents walked besides the generic trees
 
-(* A family is [name, src, di, k, nvis, fg, modes, deep]:                  *)
+(* A family is [name, src, di, k, nvis, fg, modes, deep, part, parts, root]: *)
 (*   src    "gen" (GenDoc generator) | "fixed" | "sdl" (document number di) *)
 (*   k      max decisions per visitor                                       *)
 (*   nvis   number of parallel visitors (1 = a single visitor)              *)
 (*   fg     form group "total" | "partial" | "enteronly" | "leaveonly"      *)
 (*   modes  how the harness runs the visitors                               *)
-(*   deep   also check WellNested and MRun = Walk on every case (costly)    *)
+(*   deep   also check WellNested, Parallel, TrackerAgrees and MRun = Walk   *)
+(*          on EVERY case (costly on big trees; otherwise they are checked  *)
+(*          on the full walk, and TrackerAgrees on every case with a skip)  *)
+(*   part / parts   this family emits every parts-th case (Split)           *)
+(*   root   0 = traverse the document, r = traverse its r-th definition     *)
 VARIABLES fam, pols, pol
 pvars == <<fam, pols, pol>>
 allvars == <<gvars, pvars, mvars>>
@@ -93,38 +103,41 @@ FamsFixedThorough ==
   { FamRec("fx-all", "fixed", 4, 10, 1, "total", ModesSingle, TRUE),
     FamRec("fx-all", "fixed", 4, 10, 1, "partial", ModesSingle, TRUE),
     FamRec("fx-k4", "fixed", 5, 4, 1, "total", ModesSingle, TRUE),
-    FamRec("fx-k2", "fixed", 1, 2, 1, "total", ModesSingle, FALSE),
     FamRec("fx-k2", "fixed", 2, 2, 1, "total", ModesSingle, FALSE),
     FamRec("fx-k2", "fixed", 3, 2, 1, "total", ModesSingle, FALSE),
-    FamRec("fx-partial", "fixed", 1, 1, 1, "partial", ModesSingle, FALSE),
     FamRec("fx-partial", "fixed", 2, 2, 1, "partial", ModesSingle, FALSE),
     FamRec("fx-partial", "fixed", 5, 3, 1, "partial", ModesSingle, TRUE),
     FamRec("fx-enter", "fixed", 2, 2, 1, "enteronly", ModesSingle, FALSE),
     FamRec("fx-leave", "fixed", 2, 2, 1, "leaveonly", ModesSingle, FALSE),
-    FamRec("fx-par2", "fixed", 5, 2, 2, "total", ModesPar, FALSE),
+    FamRec("fx-par2", "fixed", 5, 1, 2, "total", ModesPar, FALSE),
+    FamRec("fx-par2", "fixed", 4, 2, 2, "total", ModesPar, FALSE),
     FamRec("fx-par2", "fixed", 3, 1, 2, "total", ModesPar, FALSE),
+    FamRec("fx-par3", "fixed", 4, 1, 3, "total", ModesPar, FALSE),
     FamRec("fx-par3", "fixed", 5, 1, 3, "total", ModesPar, FALSE),
-    FamRec("fx-par3", "fixed", 4, 2, 3, "total", ModesPar, FALSE),
-    FamRec("fx-par2p", "fixed", 2, 1, 2, "partial", ModesPar, FALSE),
-    FamRec("sdl-k2", "sdl", 1, 2, 1, "total", ModesNoTypes, FALSE),
-    FamRec("sdl-k2", "sdl", 2, 2, 1, "total", ModesNoTypes, FALSE),
+    FamRec("fx-par2p", "fixed", 3, 1, 2, "partial", ModesPar, FALSE),
     FamRec("sdl-par2", "sdl", 2, 1, 2, "partial", ModesParNoTypes, FALSE),
-    Rooted(FamRec("fx-root", "fixed", 1, 1, 1, "total", ModesSingle, FALSE), 1),
     Rooted(FamRec("fx-root", "fixed", 1, 2, 1, "total", ModesSingle, FALSE), 2),
     Rooted(FamRec("fx-root", "fixed", 2, 3, 1, "total", ModesSingle, FALSE), 2),
     Rooted(FamRec("fx-root", "fixed", 2, 2, 1, "total", ModesSingle, FALSE), 3),
     Rooted(FamRec("sdl-root", "sdl", 1, 2, 1, "total", ModesNoTypes, FALSE), 3),
     Rooted(FamRec("sdl-root", "sdl", 2, 2, 1, "partial", ModesNoTypes, FALSE), 4) }
+  \cup Split(FamRec("fx-k1", "fixed", 1, 1, 1, "total", ModesSingle, FALSE), 8)
+  \cup Split(FamRec("fx-partial", "fixed", 1, 1, 1, "partial", ModesSingle, FALSE), 4)
+  \cup Split(Rooted(FamRec("fx-root", "fixed", 1, 1, 1, "total", ModesSingle, FALSE), 1), 6)
+  \cup Split(FamRec("sdl-k1", "sdl", 1, 1, 1, "total", ModesNoTypes, FALSE), 4)
+  \cup Split(FamRec("sdl-k1", "sdl", 2, 1, 1, "total", ModesNoTypes, FALSE), 4)
 
 \* generated documents (the alphabets are constants of the run)
 GenK(k) == FamRec("gen-k", "gen", 0, k, 1, "total", ModesSingle, FALSE)
+GenKD(k) == FamRec("gen-k", "gen", 0, k, 1, "total", ModesSingle, TRUE)
 GenPartial(k) == FamRec("gen-partial", "gen", 0, k, 1, "partial", ModesSingle, FALSE)
+GenEnter(k) == FamRec("gen-enter", "gen", 0, k, 1, "enteronly", ModesSingle, FALSE)
 GenPar(k, n) == FamRec("gen-par", "gen", 0, k, n, "total", ModesPar, FALSE)
 FamsGenK1 == { GenK(1) }
 FamsGenK2 == { GenK(2) }
-FamsGenK3 == { GenK(3) }
-FamsGenPar2 == { GenPar(1, 2) }
 FamsGenMix == { GenK(1), GenPartial(1) }
+\* for small trees: all triples, two parallel visitors, partial / enter-only visitors with pairs
+FamsGenSmall == { GenKD(3), GenPar(1, 2), GenPartial(2), GenEnter(2) }
 FamsQuick == FamsFixedQuick \cup { GenK(1) }
 
 \* -------------------------------------------------- generator alphabets
@@ -143,6 +156,14 @@ SpreadLater(i, j) == j > i \/ i > Len(Frags)
 NoFrags == <<>>
 FragsF == << [name |-> "F", on |-> "Q"] >>
 FragsFO == << [name |-> "F", on |-> "Q"], [name |-> "G", on |-> "O"] >>
+
+\* V0: small trees (for pairs / triples of decisions and for sets of parallel visitors)
+V0_Leafs(t) == CASE t = "Q" -> { Sel("", "a"), Sel("k", "b") }
+                 [] t = "O" -> { Sel("", "x") }
+                 [] OTHER -> {}
+V0_Comps(t) == CASE t = "Q" -> { Sel("", "o") }
+                 [] OTHER -> {}
+V0_Inlines(t) == IF t = "Q" THEN { "Q" } ELSE {}
 
 \* V1: aliases, arguments of every value shape, nested selection sets
 V1_Leafs(t) == CASE t = "Q" -> { Sel("", "a"), Sel("k", "b"),
@@ -454,7 +475,9 @@ Emit ==
        /\ \A k \in 1..Len(fin) :
             /\ Thm("SubWalk", SubWalk(IdxOf(c.ei, c.li, walks[k])))
             \* the last visitor among the others: it observes what it would observe alone
-            /\ Thm("Parallel", ParallelIds(c.fullIds, Append(allPols, ps[k]), Len(pols) + 1) = walks[k])
+            \* (for a single visitor on a big document only with deep = TRUE: costly)
+            /\ (Deep \/ NVis > 1) =>
+                 Thm("Parallel", ParallelIds(c.fullIds, Append(allPols, ps[k]), Len(pols) + 1) = walks[k])
             \* a tracker that leaves skipped nodes reports the types that apply, whatever the policy
             /\ (Deep \/ HasEnterSkip(ps[k])) => Thm("TrackerAgrees", TrackerAgrees(S1, loc, nodes, walks[k], ps[k]))
             /\ Deep => /\ Thm("WellNested", WellNested(Details(loc, walks[k])))
